@@ -124,6 +124,17 @@ fn opt_wrap(rng: &mut Rng, t: Ty) -> Ty { if rng.chance(1, 7) { Ty::Opt(Box::new
 
 fn leaf_ty(rng: &mut Rng, l: &BLeaf) -> Ty {
     if rng.chance(1, 20) { return Ty::Ign; }
+    // narrow integer targets (deserialize_u16 / i16 / u8 / i8 take their own arms in every deserializer; the
+    // on-demand binary path decides by lexeme id whether the token is a raw id or a number)
+    let small: Option<i64> = match l { BLeaf::I32(v) => Some(*v as i64), BLeaf::I64(v) => Some(*v), BLeaf::U32(v) => Some(*v as i64), BLeaf::U64(v) if *v <= 1000 => Some(*v as i64), _ => None };
+    if let Some(v) = small {
+        if rng.chance(1, 4) {
+            let mut c = vec![];
+            if (0..=255).contains(&v) { c.push(Ty::U8); } if (0..=65535).contains(&v) { c.push(Ty::U16); }
+            if (-128..=127).contains(&v) { c.push(Ty::I8); } if (-32768..=32767).contains(&v) { c.push(Ty::I16); }
+            if !c.is_empty() { return rng.pick(&c).clone(); }
+        }
+    }
     match l {
         BLeaf::I32(v) => { let mut c = vec![Ty::I64, Ty::I32, Ty::F64]; if *v >= 0 { c.push(Ty::U64); c.push(Ty::U32); } rng.pick(&c).clone() }
         BLeaf::I64(_) => Ty::I64,
